@@ -119,10 +119,15 @@ def GenerateRxnNet(initial_reactant, reaction_rules):
                     # Remove molecule with atoms with over valence
                 for i in range(len(products)-1, -1, -1):
                     for atoms in products[i].GetAtoms():
+                        # (a charged atom can be within the default valence
+                        # of its element and still above what its charge
+                        # allows, e.g. O- with two bonds: such a species could
+                        # not be sanitized at the end)
                         if PeriodicTable.GetDefaultValence(GetPeriodicTable(),
                                                            atoms.GetAtomicNum()
                                                            ) < \
-                             atoms.GetTotalValence():
+                             atoms.GetTotalValence() or \
+                                atoms.HasValenceViolation():
                             del products[i]
                             break
                 # remove duplicates
